@@ -629,6 +629,8 @@ func (s *Session) applyContract(fr *Frame, c *Contract, fn *ssa.Function, sig *t
 		}
 	}
 	se2 := &SpecEnv{sess: s, pkg: pkgT, vars: env, st: st, old: old}
+	savedOrigin := s.curOrigin
+	s.curOrigin = fmt.Sprintf("post:%s#%d", calleeShort(short), ord)
 	for _, en := range c.Ensures {
 		if en.Mode != "" && en.Mode != mode {
 			continue
@@ -636,7 +638,16 @@ func (s *Session) applyContract(fr *Frame, c *Contract, fn *ssa.Function, sig *t
 		f := s.evalBool(se2, en.E)
 		s.assume(Imp(st.Reach, f))
 	}
+	s.curOrigin = savedOrigin
 	return packResults(res, vals)
+}
+
+// calleeShort: "(*T).M" -> "M", "F" -> "F"
+func calleeShort(key string) string {
+	if i := strings.LastIndex(key, ")."); i >= 0 {
+		return key[i+2:]
+	}
+	return key
 }
 
 func sanitizeName(s string) string {
@@ -1502,8 +1513,11 @@ func (s *Session) callSiteAsserts(fr *Frame, cc *ssa.CallCommon, st *State, inst
 		for _, sub := range subs {
 			f := s.evalBoolClauseAt(fr, sub, st, instr.Block(), idx)
 			g := s.evalGoalClauseAt(fr, sub, st, instr.Block(), idx)
-			s.addObl(&Obligation{Name: fmt.Sprintf("%s/%s@%s#%d.%s", fr.oblPfx, phase, name, k, clauseNameSplit(cl, i, sub, len(subs))), Kind: "assert", Func: fr.oblPfx, Src: "at call " + name + " (" + phase + "): " + sub.Src, Guard: st.Reach, Formula: g})
+			s.addObl(&Obligation{Name: fmt.Sprintf("%s/%s@%s#%d.%s", fr.oblPfx, phase, name, k, clauseNameSplit(cl, i, sub, len(subs))), Kind: "assert", Func: fr.oblPfx, Src: "at call " + name + " (" + phase + "): " + sub.Src, Guard: st.Reach, Formula: g, Using: cl.Using})
+			so := s.curOrigin
+			s.curOrigin = fmt.Sprintf("at:%s#%d", name, k)
 			s.assume(Imp(st.Reach, f))
+			s.curOrigin = so
 		}
 	}
 }
